@@ -144,7 +144,7 @@ func ConnectWithConfig(c *ConnConfig) (*Conn, error) {
 			go func() {
 				conn.state.WaitUntil(ctx, connStatusClosed)
 				cancel()
-				conn.eventDispatcher.cond.Broadcast()
+				broadcastLocked(conn.eventDispatcher.cond)
 			}()
 			go func() {
 				conn.eventDispatcher.dispatchLoop(ctx)
@@ -354,8 +354,8 @@ func (c *Conn) OpenUpstream(ctx context.Context, sessionID string, opts ...Upstr
 		receivedAck:            sync.NewCond(&sync.RWMutex{}),
 	}
 	go func() {
-		defer c.state.cond.Broadcast()
-		defer u.state.cond.Broadcast()
+		defer broadcastLocked(c.state.cond)
+		defer broadcastLocked(u.state.cond)
 		defer cancel()
 		c.state.WaitUntil(ctx, connStatusClosed)
 	}()
@@ -373,7 +373,7 @@ func (c *Conn) OpenUpstream(ctx context.Context, sessionID string, opts ...Upstr
 			u.eventDispatcher.dispatchLoop(ctx)
 		}()
 		context.AfterFunc(ctx, func() {
-			u.eventDispatcher.cond.Broadcast()
+			broadcastLocked(u.eventDispatcher.cond)
 		})
 		var isResume bool
 		for {
@@ -514,8 +514,8 @@ func (c *Conn) OpenDownstream(ctx context.Context, filters []*message.Downstream
 		Config:         downconf,
 	}
 	go func() {
-		defer c.state.cond.Broadcast()
-		defer down.state.cond.Broadcast()
+		defer broadcastLocked(c.state.cond)
+		defer broadcastLocked(down.state.cond)
 		defer cancel()
 		c.state.WaitUntil(ctx, connStatusClosed)
 	}()
@@ -534,7 +534,7 @@ func (c *Conn) OpenDownstream(ctx context.Context, filters []*message.Downstream
 			down.eventDispatcher.dispatchLoop(ctx)
 		}()
 		context.AfterFunc(ctx, func() {
-			down.eventDispatcher.cond.Broadcast()
+			broadcastLocked(down.eventDispatcher.cond)
 		})
 
 		for {
